@@ -67,7 +67,16 @@ def matches(pattern, strings):
         core, garg = core.split("<", 1)
     for s in strings:
         head = s.split("(")[0]
-        if core not in head:
+        # the pattern has to end at an identifier boundary: `f64::<impl f64>::round` is not matched by `..::round_ties_even`
+        i = head.find(core)
+        hit = False
+        while i != -1:
+            nxt = head[i + len(core):i + len(core) + 1]
+            if not (nxt.isalnum() or nxt == "_") or not (core[-1].isalnum() or core[-1] == "_"):
+                hit = True
+                break
+            i = head.find(core, i + 1)
+        if not hit:
             continue
         if garg is not None:
             g = s[s.find("<", s.find("|")):]
